@@ -116,11 +116,14 @@ Section Run.
   Variable hashf : bytes -> N.
   Variable fp : cmd -> N.
   Variable slog : St -> list prec.
+  (* the representation invariant the appender keeps on its own log (for the
+     message store: sequences are exactly 1, 2, 3, ...) *)
+  Variable Wf : list prec -> Prop.
 
   (* the appender contract *)
   Definition append_contract : Prop :=
-    forall s q rep s', do_append s q = (rep, s') ->
-    exists ext, slog s' = slog s ++ ext /\ ext_ok (slog s) ext (q_items q) /\
+    forall s q rep s', Wf (slog s) -> do_append s q = (rep, s') ->
+    exists ext, slog s' = slog s ++ ext /\ Wf (slog s') /\ ext_ok (slog s) ext (q_items q) /\
       match rep with
       | AOk rs =>
           (forall i it a, nth_error (q_items q) i = Some it -> nth_error rs i = Some a -> a_err a = 0 ->
@@ -370,13 +373,13 @@ Section Run.
 
   (* committed completions of one Ok reply are ordered like their items *)
   Lemma arc_committed_sorted s q rs s' :
-    do_append s q = (AOk rs, s') -> StronglySorted tag_lt (q_items q) ->
+    Wf (slog s) -> do_append s q = (AOk rs, s') -> StronglySorted tag_lt (q_items q) ->
     forall c1 c2, In c1 (appendResultCompletions (q_items q) rs) -> In c2 (appendResultCompletions (q_items q) rs) ->
       cp_committed c1 = true -> cp_committed c2 = true -> tagof c1 < tagof c2 ->
       r_seq (cp_res c1) < r_seq (cp_res c2).
   Proof.
-    intros D Hs c1 c2 H1 H2 K1 K2 Ht.
-    destruct (Happ _ _ _ _ D) as [ext [_ [_ [_ Hord]]]].
+    intros HW D Hs c1 c2 H1 H2 K1 K2 Ht.
+    destruct (Happ _ _ _ _ HW D) as [ext [_ [_ [_ [_ Hord]]]]].
     destruct (arc_committed _ _ _ H1 K1) as [i [a [I1 [I2 [I3 I4]]]]].
     destruct (arc_committed _ _ _ H2 K2) as [j [b [J1 [J2 [J3 J4]]]]].
     rewrite I4, J4. cbn [r_seq].
@@ -460,16 +463,17 @@ Section Run.
   (* [log0]: the log before the run; [pre]: what the failed first append committed
      (nothing, if failures are atomic) *)
   Lemma recoveriesAndRetry_spec log0 pre s items cls unique s' :
+    Wf (slog s) ->
     slog s = log0 ++ pre -> LogOK (slog s) -> (atomic_failures -> pre = []) -> cls <> 0 ->
     StronglySorted tag_lt items ->
     recoveriesAndRetry St do_append do_nlookup hashf s items cls = (unique, s') ->
-    exists e2, slog s' = slog s ++ e2 /\ ext_ok (slog s) e2 items
+    exists e2, slog s' = slog s ++ e2 /\ Wf (slog s') /\ ext_ok (slog s) e2 items
       /\ map cp_item unique = items
       /\ Forall (origin log0 (pre ++ e2)) unique
       /\ (forall c1 c2, In c1 unique -> In c2 unique -> cp_committed c1 = true -> cp_committed c2 = true ->
                         tagof c1 < tagof c2 -> r_seq (cp_res c1) < r_seq (cp_res c2)).
   Proof.
-    intros Hlog HL Hat Hcls Hsorted H. unfold recoveriesAndRetry in H.
+    intros HW Hlog HL Hat Hcls Hsorted H. unfold recoveriesAndRetry in H.
     assert (Hfail : forall its, Forall (origin log0 (pre ++ [])) (appendBatchErrorCompletions its cls)).
     { intro its. apply Forall_forall. intros c Hc. unfold appendBatchErrorCompletions in Hc.
       apply in_map_iff in Hc. destruct Hc as [it [E _]]. subst c. apply OFail; [apply errcomp_fail; exact Hcls|reflexivity]. }
@@ -477,7 +481,7 @@ Section Run.
     { intros its c Hc. unfold appendBatchErrorCompletions in Hc. apply in_map_iff in Hc.
       destruct Hc as [it [E _]]. subst c. reflexivity. }
     destruct (negb (cls =? E_APPEND_FAILED)).
-    { inversion H; subst unique s'. exists []. rewrite app_nil_r. split; [reflexivity|]. split; [apply ext_ok_nil|].
+    { inversion H; subst unique s'. exists []. rewrite app_nil_r. split; [reflexivity|]. split; [exact HW|]. split; [apply ext_ok_nil|].
       split; [unfold appendBatchErrorCompletions; rewrite map_map; apply map_id|].
       split; [apply Hfail|]. intros c1 c2 H1 _ K1. rewrite (Hnc _ _ H1) in K1. discriminate. }
     destruct (lookup_all St do_nlookup hashf s items) as [[slots rec] s1] eqn:LA.
@@ -489,7 +493,7 @@ Section Run.
       - intros r Hr. rewrite app_nil_r, <- Hlog. exact Hr.
       - intros A r Hr. rewrite Hlog, (Hat A), app_nil_r in Hr. exact Hr. }
     destruct (negb rec).
-    { inversion H; subst unique s'. exists []. rewrite app_nil_r. split; [exact L1|]. split; [apply ext_ok_nil|].
+    { inversion H; subst unique s'. exists []. rewrite app_nil_r. split; [exact L1|]. split; [rewrite L1; exact HW|]. split; [apply ext_ok_nil|].
       destruct (fill_err_spec slots cls) as [F1 F2]. split; [rewrite F1; exact L2|]. split.
       - apply Forall_forall. intros c Hc. destruct (F2 c Hc) as [Hd|[it [_ E]]].
         + apply Hdone. exact Hd.
@@ -513,7 +517,7 @@ Section Run.
         rewrite app_nil_r in O. exact O.
       - subst c. split; [|reflexivity]. apply OFail; [apply errcomp_fail; apply dead_nz; exact A|reflexivity]. }
     destruct (is_nil retryItems) eqn:Enil.
-    { inversion H; subst unique s'. exists []. rewrite app_nil_r. split; [exact L1|]. split; [apply ext_ok_nil|].
+    { inversion H; subst unique s'. exists []. rewrite app_nil_r. split; [exact L1|]. split; [rewrite L1; exact HW|]. split; [apply ext_ok_nil|].
       destruct retryItems as [|x l] eqn:ER; [|discriminate].
       destruct (fill_retry_spec slots [] (eq_sym ER)) as [F1 F2].
       split; [rewrite F1; exact L2|]. split.
@@ -521,12 +525,13 @@ Section Run.
       - intros c1 c2 H1 _ K1. destruct (F2 c1 H1) as [Hd|[Hd|[]]];
           rewrite (proj2 (Hother [] c1 (ltac:(auto)))) in K1; discriminate. }
     destruct (do_append s1 (appendRequest retryItems c29_recovery_attempt)) as [rep s2] eqn:D.
-    destruct (Happ _ _ _ _ D) as [e2 [X1 [X2 X3]]]. cbn [appendRequest q_items] in X2, X3.
+    assert (HW1 : Wf (slog s1)) by (rewrite L1; exact HW).
+    destruct (Happ _ _ _ _ HW1 D) as [e2 [X1 [HW2 [X2 X3]]]]. cbn [appendRequest q_items] in X2, X3.
     rewrite L1 in X1, X2.
     pose proof (ext_ok_mono _ _ _ _ Hrsub X2) as X2'.
     destruct rep as [rs|cls2].
     - (* the retry was accepted *)
-      inversion H; subst unique s'. clear H. exists e2. split; [exact X1|]. split; [exact X2'|].
+      inversion H; subst unique s'. clear H. exists e2. split; [exact X1|]. split; [exact HW2|]. split; [exact X2'|].
       destruct X3 as [X3 X4].
       pose proof (arc_origin log0 pre _ _ _ _ e2 D X3) as Ho. cbn [appendRequest q_items] in Ho.
       destruct (fill_retry_spec slots (appendResultCompletions retryItems rs) (arc_items _ _)) as [F1 F2].
@@ -542,12 +547,12 @@ Section Run.
         assert (R2 : In c2 (appendResultCompletions retryItems rs)).
         { destruct (F2 c2 H2) as [Hd|[Hd|Hd]]; [| |exact Hd];
             rewrite (proj2 (Hother e2 c2 (ltac:(auto)))) in K2; discriminate. }
-        eapply (arc_committed_sorted _ _ _ _ D); eauto.
+        eapply (arc_committed_sorted _ _ _ _ HW1 D); eauto.
     - (* the retry failed as well: a last round of lookups *)
       unfold appendBatchErrorCompletionsOrRecoveries in H.
       assert (Hcls2 : cls2 <> 0) by exact X3.
       destruct (negb (cls2 =? E_APPEND_FAILED)).
-      + inversion H; subst unique s'. clear H. exists e2. split; [exact X1|]. split; [exact X2'|].
+      + inversion H; subst unique s'. clear H. exists e2. split; [exact X1|]. split; [exact HW2|]. split; [exact X2'|].
         assert (Hi : map cp_item (appendBatchErrorCompletions retryItems cls2) = retryItems).
         { unfold appendBatchErrorCompletions. rewrite map_map. apply map_id. }
         destruct (fill_retry_spec slots _ Hi) as [F1 F2].
@@ -565,7 +570,7 @@ Section Run.
       + destruct (recover_all St do_nlookup hashf s2 retryItems cls2) as [rc s3] eqn:RA.
         inversion H; subst unique s'. clear H.
         destruct (recover_all_spec log0 (pre ++ e2) _ _ _ _ _ Hcls2 RA) as [R1 [R2 R3]].
-        exists e2. split; [rewrite R1; exact X1|]. split; [exact X2'|].
+        exists e2. split; [rewrite R1; exact X1|]. split; [rewrite R1; exact HW2|]. split; [exact X2'|].
         destruct (fill_retry_spec slots rc R2) as [F1 F2].
         assert (Hrc : forall c, In c rc -> origin log0 (pre ++ e2) c /\ cp_committed c = false).
         { intros c Hc. rewrite Forall_forall in R3. specialize (R3 _ Hc). split; [|apply R3].
@@ -664,9 +669,9 @@ Section Run.
   Qed.
 
   Theorem run_spec s e ev s' :
-    LogOK (slog s) -> StronglySorted tag_lt (ef_items e) ->
+    Wf (slog s) -> LogOK (slog s) -> StronglySorted tag_lt (ef_items e) ->
     run St do_append do_nlookup hashf fp s e = (ev, s') ->
-    exists ext, slog s' = slog s ++ ext /\ ext_ok (slog s) ext (ef_items e)
+    exists ext, slog s' = slog s ++ ext /\ Wf (slog s') /\ ext_ok (slog s) ext (ef_items e)
       /\ ev_seq ev = ef_seq e
       /\ Permutation (map cp_item (ev_items ev)) (ef_items e)
       /\ Forall (eorigin (slog s) ext) (ev_items ev)
@@ -674,10 +679,10 @@ Section Run.
              cp_committed c1 = true -> cp_committed c2 = true -> tagof c1 < tagof c2 ->
              r_seq (cp_res c1) < r_seq (cp_res c2)).
   Proof.
-    intros HL Hsorted H. unfold run in H.
+    intros HW HL Hsorted H. unfold run in H.
     destruct (is_nil (ef_items e)) eqn:En.
     { inversion H; subst ev s'. exists []. rewrite app_nil_r. destruct (ef_items e); [|discriminate].
-      cbn [ev_seq ev_items map]. split; [reflexivity|]. split; [apply ext_ok_nil|]. split; [reflexivity|].
+      cbn [ev_seq ev_items map]. split; [reflexivity|]. split; [exact HW|]. split; [apply ext_ok_nil|]. split; [reflexivity|].
       split; [constructor|]. split; [constructor|]. intros c1 c2 []. }
     rewrite activeAppendItems_correct in H. unfold activeAppendItems_spec in H.
     set (items := ef_items e) in *. set (active := filter alive items) in *.
@@ -687,7 +692,7 @@ Section Run.
     assert (Hasorted : StronglySorted tag_lt active) by (apply sorted_filter; exact Hsorted).
     destruct (is_nil active) eqn:Ea.
     { inversion H; subst ev s'. exists []. rewrite app_nil_r. cbn [ev_seq ev_items].
-      split; [reflexivity|]. split; [apply ext_ok_nil|]. split; [reflexivity|].
+      split; [reflexivity|]. split; [exact HW|]. split; [apply ext_ok_nil|]. split; [reflexivity|].
       split.
       { specialize (Hperm [] ltac:(destruct active; [reflexivity|discriminate])).
         rewrite app_nil_r in Hperm. exact Hperm. }
@@ -706,7 +711,7 @@ Section Run.
       { pose proof (cz_bound _ _ _ C) as B. rewrite Forall_forall in B. apply B. exact Hp. }
       pose proof (nth_In active dflt_psend Hb) as Hin. apply filter_In in Hin. tauto. }
     destruct (do_append s (appendRequest X c29_initial_attempt)) as [rep s1] eqn:D.
-    destruct (Happ _ _ _ _ D) as [e1 [X1 [X2 X3]]]. cbn [appendRequest q_items] in X2, X3.
+    destruct (Happ _ _ _ _ HW D) as [e1 [X1 [HW1 [X2 X3]]]]. cbn [appendRequest q_items] in X2, X3.
     (* everything the event carries, from the unique completions *)
     assert (Hfinish : forall ext unique,
       map cp_item unique = X -> Forall (origin (slog s) ext) unique ->
@@ -736,20 +741,20 @@ Section Run.
         apply Hord; auto; apply Hel; auto. }
     destruct rep as [rs|cls].
     - inversion H; subst ev s'. clear H. cbn [ev_seq ev_items]. exists e1.
-      split; [exact X1|]. split; [eapply ext_ok_mono; [exact HXsub|exact X2]|]. split; [reflexivity|].
+      split; [exact X1|]. split; [exact HW1|]. split; [eapply ext_ok_mono; [exact HXsub|exact X2]|]. split; [reflexivity|].
       destruct X3 as [X3 X4].
       apply Hfinish.
       + apply arc_items.
       + pose proof (arc_origin (slog s) [] _ _ _ _ e1 D X3) as Ho. exact Ho.
-      + intros c1 c2 H1 H2. eapply (arc_committed_sorted _ _ _ _ D); eauto.
+      + intros c1 c2 H1 H2. eapply (arc_committed_sorted _ _ _ _ HW D); eauto.
     - destruct (recoveriesAndRetry St do_append do_nlookup hashf s1 X cls) as [unique s2] eqn:R.
       inversion H; subst ev s'. clear H. cbn [ev_seq ev_items].
       assert (HL1 : LogOK (slog s1)) by (rewrite X1; eapply LogOK_ext; eauto).
-      destruct (recoveriesAndRetry_spec (slog s) e1 _ _ _ _ _ X1 HL1
+      destruct (recoveriesAndRetry_spec (slog s) e1 _ _ _ _ _ HW1 X1 HL1
                   (fun A => app_eq_self _ _ (eq_trans (eq_sym X1) (A _ _ _ _ D))) X3 HXsorted R)
-        as [e2 [Y1 [Y2 [Y3 [Y4 Y5]]]]].
+        as [e2 [Y1 [YW [Y2 [Y3 [Y4 Y5]]]]]].
       exists (e1 ++ e2). split; [rewrite Y1, X1, app_assoc; reflexivity|].
-      split.
+      split; [exact YW|]. split.
       { eapply ext_ok_mono; [exact HXsub|]. apply ext_ok_app; auto. rewrite <- X1. exact Y2. }
       split; [reflexivity|].
       apply Hfinish; auto.
